@@ -18,7 +18,7 @@ import time
 
 ROOT = os.path.dirname(os.path.dirname(os.path.abspath(__file__)))
 REPO = os.environ.get("ZVT_REPO", "/repo")
-WORK = os.path.join(ROOT, ".work")
+WORK = os.environ.get("VERIF_WORK") or os.path.join(ROOT, ".work")
 EXP = os.path.join(WORK, "exp")
 ZX = os.path.join(ROOT, "tool", "target", "release", "zx")
 EVID = os.path.join(ROOT, "evidence")
@@ -186,6 +186,13 @@ def classify(diags, mp, unit_name=""):
             if r2 is not None and r is not None and r2.get("kind") in ("fn-body", "loop-clause", "ghost-clause") and r2.get("item") != r.get("item") and r.get("item", "").startswith("trait"):
                 impl_props = (impl_props or set()) | set(r2["props"])
         if impl_props is not None:
+            # `also=` of the implementing function: properties a failed trait clause additionally carries there
+            for s2 in spans:
+                r2 = region_of(mp, s2["line_start"])
+                if r2 is not None and r2.get("item") and r is not None and r2["item"] != r.get("item"):
+                    for r3 in mp["regions"]:
+                        if r3["kind"] == "also" and r3["item"] == r2["item"]:
+                            props |= set(r3["props"])
             if UNITS.get(unit_name, {}).get("attribute_to_impl"):
                 # in this unit a failed trait-level clause is the business of the implementing function only:
                 # the properties the clause and the function share, or the function's own if they share none
@@ -377,7 +384,7 @@ def check_one(pid, tier):
             canary_ok = False
         for rg in mp["regions"]:
             if pid in rg["props"]:
-                if rg["kind"] in ("fn-sig", "item", "assumed-clause") or (rg["kind"] == "clause" and not rg["clause"]):
+                if rg["kind"] in ("fn-sig", "item", "assumed-clause", "also") or (rg["kind"] == "clause" and not rg["clause"]):
                     continue
                 rid = region_id(rg)
                 if rid not in [o["id"] for o in obligations if o["unit"] == r["unit"]]:
